@@ -170,3 +170,16 @@ mod test {
         assert_json_snapshot!(rule, @r###""compute_expression""###);
     }
 }
+
+#[cfg(feature = "verif")]
+pub(crate) mod verif_hooks {
+    use super::*;
+
+    pub fn replace_with(expression: &Expression) -> Option<Expression> {
+        Computer::default().replace_with(expression)
+    }
+
+    /// Stub body for the processor's recursive `process_expression` in node-step harnesses.
+    #[allow(private_interfaces)]
+    pub fn process_expression_stub(_processor: &mut Computer, _expression: &mut Expression) {}
+}
